@@ -228,7 +228,7 @@ def rank_rows(A, p):
     n = len(A)
     return rank_of([[A[j][i] for j in range(n)] for i in range(p)])
 
-def to_cvx(cvxopt, pr, sparse=False, junk=None):
+def to_cvx(cvxopt, pr, sparse=False, junk=None, junk_scale=1.0):
     """cvxopt matrices (c, G, h, A, b, P); junk: rng to write arbitrary values into the strict upper triangles of
     the 's' blocks of G and h (never referenced by the solvers)"""
     from cvxopt import matrix, sparse as sp
@@ -238,8 +238,8 @@ def to_cvx(cvxopt, pr, sparse=False, junk=None):
         for k in pr.dims['s']:
             for j in range(k):
                 for i in range(j):
-                    for col in G: col[off + j * k + i] = float(junk.randint(-9, 9))
-                    h[off + j * k + i] = float(junk.randint(-9, 9))
+                    for col in G: col[off + j * k + i] = float(junk.randint(-9, 9)) * junk_scale
+                    h[off + j * k + i] = float(junk.randint(-9, 9)) * junk_scale
             off += k * k
     mG = matrix([x for col in G for x in col], (pr.N, pr.n), 'd')
     mA = matrix([x for col in pr.A for x in col], (pr.p, pr.n), 'd')
